@@ -13,6 +13,9 @@ CLAIMED = {
     "C02": ("exploration", "DESIGN.md 4 (C02)", "seeded deterministic simulation with an independent VOL encoder/decoder as oracle: library-written archives parsed from the durable bytes; reference-encoded archives (spare slots, LZH/RLE/LZ members) opened by the library",
             "Two directions: every archive written in vol-roundtrip runs is parsed byte by byte by a strict independent decoder (tiling, names, blocks, search order); archives emitted by the independent encoder with 0..3 spare index slots and stored/LZH/RLE/LZ members are opened with VolFile and listed, streamed and extracted (LZH members must extract to the independent LZH decoder's output). Sampling evidence, not proof.",
             "Trusts sim/models/refvol.h and reflzh.h (written from the public format description, no code shared with /repo/src)."),
+    "C03": ("exploration", "DESIGN.md 4 (C03)", "seeded deterministic simulation: WAV sets from an independent RIFF encoder packed on a simulated disk under short I/O and EINTR, reopened and compared with a track model; durable CLM bytes parsed by an independent decoder; refusal worlds",
+            "Seeded sets of 0..8 RIFF/WAVE files sharing one arbitrary WaveFormat, with even-sized foreign chunks before fmt, between fmt and data and after data, 16- and 18-byte fmt chunks, data lengths 0..128 KiB+1, base names of 1..8 characters in either case, five path spellings, permuted order; after ClmFile::CreateArchive the durable bytes are parsed by an independent CLM decoder (header constants, offsets, lengths, file end), the reopened archive is listed, streamed and extracted and each extracted WAV is parsed strictly; not-RIFF, wrong RIFF size, differing formats, 9-character and case-duplicate names must be refused. Sampling evidence, not proof.",
+            "Trusts sim/models/refclm.h (RIFF and CLM layouts written from the public descriptions)."),
     "C04": ("exploration", "DESIGN.md 4 (C04)", "seeded deterministic simulation: LZH decompressor vs an independent LZHUF reference decoder/encoder under seeded drain schedules (GetData boundary sizes mixed with GetInternalBuffer), damaged and over-capacity inputs, and VOL extraction",
             "Inputs: reference-encoded token lists covering every match length 3..60 and distance class, tokenised payloads, random bytes up to 100 KiB, constant bytes, truncated and bit-flipped streams, and streams needing more than 65221 symbol updates. The consumer is a seeded drain schedule; output must equal the reference decoder byte for byte for every schedule, a capacity error must be raised exactly where the reference stops, and extraction of the same stream as an LZH member of a reference-encoded VOL must write the same bytes. Sampling evidence, not proof.",
             "Trusts sim/models/reflzh.h (classical son/prnt/freq LZHUF form written from the format description; its encoder/decoder pair is self-checked in every payload run). Output for the 0-byte input is not asserted."),
